@@ -1,0 +1,20 @@
+//go:build verif
+
+package fasthttp
+
+import (
+	"io"
+	"mime/multipart"
+)
+
+// Thin exports for the /verif correspondence harness (property C35).
+
+func VerifReadMultipartForm(r io.Reader, boundary string, size, maxInMemoryFileSize int) (*multipart.Form, error) {
+	return readMultipartForm(r, boundary, size, maxInMemoryFileSize)
+}
+
+func VerifDefaultMaxInMemoryFileSize() int { return defaultMaxInMemoryFileSize }
+
+func VerifMarshalMultipartForm(f *multipart.Form, boundary string) ([]byte, error) {
+	return marshalMultipartForm(f, boundary)
+}
